@@ -19,6 +19,7 @@ RULE = ('valid generated specs under 1-3 token-level edits (own tokenizer), all 
         '(api | InvalidSpec with non-empty message and input path | escape). distinct = distinct '
         '(outcome class, exception type, raising function) triples observed via sys.monitoring RAISE '
         'plus distinct edit kinds applied')
+RULE += ' ' + 'The edits include argument lists mixing positional and keyword arguments and definitions named like imported namespaces; five special inputs (not UTF-8, UTF-16, wrong extension, missing file, NUL bytes) go through the command line.'
 ASSUMPTIONS = ['inputs bounded as in the quantifier; RecursionError from unbounded size is out of scope',
                'the exhaustive workload re-uses one ParserFactory through get_parser(); every 50th '
                'string is cross-checked against a pristine specs_to_ir and a disagreement is inconclusive']
